@@ -59,6 +59,7 @@ CONSTANTS Node,          \* node ids
           FixD4,         \* TRUE = snapshot labelled with the configuration in force at the snapshot index (repaired)
           FixD11,        \* TRUE = a stale log view reports entries in removed segments as not found (repaired)
           FixD3,         \* TRUE = canChangeConfig requires an own-term commit (repaired)
+          FixD14,        \* TRUE = round.begin resets the end time of the previous round (repaired)
           FixD19,        \* TRUE = a locally taken snapshot never replaces a newer installed one (repaired)
           FixD13,        \* TRUE = a follower flushes its log before every successful append reply (repaired)
           FixD5,         \* TRUE = onSnapshotTaken keeps leader.removeLTE >= log.PrevIndex (repaired)
@@ -212,7 +213,9 @@ HasActions(nodes) == \E i \in DOMAIN nodes : nodes[i].action # "none"
 \* finished once stays "finished" for ever and its Duration() (End - Start) is negative afterwards (stale = TRUE):
 \* only the FIRST round of a promotion is ever measured against PromoteThreshold.
 NoRound == [on |-> FALSE, ord |-> 0, last |-> 0, done |-> FALSE, stale |-> FALSE]
-BeginRound(r, last) == [on |-> TRUE, ord |-> Min(r.ord + 1, MaxRoundOrd), last |-> last, done |-> r.done, stale |-> r.done]
+\* (FixD14: round.begin clears End, so that every round has to be completed and is timed)
+BeginRound(r, last) == [on |-> TRUE, ord |-> Min(r.ord + 1, MaxRoundOrd), last |-> last,
+                        done |-> IF FixD14 THEN FALSE ELSE r.done, stale |-> IF FixD14 THEN FALSE ELSE r.done]
 
 NewRepl(s, j) ==
     [next |-> Last(s) + 1, rmatch |-> 0, match |-> 0, noContact |-> FALSE,
